@@ -792,6 +792,11 @@ class Models:
     def x_logging(self):
         return LoggingModule()
 
+    def x_math_isclose(self):
+        def f(ex_, a, k):
+            return Sym(K.Bool, P.ufn('math_isclose', [z3.IntSort(), z3.IntSort()], z3.BoolSort())(P.int_t(ex_, a[0]), P.int_t(ex_, a[1])))
+        return Builtin('math.isclose', f)
+
     # ------------------------------------------------------------------ inspect (A-inspect)
     def x_inspect_signature(self):
         return Builtin('inspect.signature', lambda ex_, a, k: SigObj(ex_, a[0]))
@@ -1646,8 +1651,11 @@ def issubclass_(ex, c, t):
         cell = ex.run.cell(c)
         if isinstance(cell, AbstractObj):
             return cell.iface.issubclass(ex, c, t)
-    if isinstance(c, Sym) and hasattr(ex.contracts, 'sym_issubclass'):
-        r = ex.contracts.sym_issubclass(ex, c, t)
-        if r is not None:
-            return r
+    if isinstance(c, Sym) and isinstance(c.kind, K.U) and isinstance(t, ClassVal):
+        # U_ISSUBCLASS = {kind name: {class key: boolean attribute of the class object}} in a contract module
+        tkey = t.ci.key if hasattr(t.ci, 'key') else t.ci[1]
+        for cm in (ex.contracts.modules.values() if ex.contracts else []):
+            attr = getattr(cm.py, 'U_ISSUBCLASS', {}).get(c.kind.name, {}).get(tkey)
+            if attr is not None:
+                return P.getattr_(ex, c, attr)
     raise OutOfSubset(f'issubclass({c!r}, {t!r})')
